@@ -17,7 +17,8 @@ def run(ctx):
                 "byte offset of the record —, fsync, rename, unlink), then survivors take the stale lock over after the grace "
                 "period, append and read, and a fresh reader opens the file: (B) TLC -simulate behaviours of JournalFileMC "
                 "with Crash replayed step by step on the real code, (A) seeded random crash schedules, (C) one execution "
-                "per byte offset; all validated by TLC against JournalFileTrace; distinct = distinct executions")
+                "per byte offset (small records: every offset; records of 4-9 KiB: offsets around the block boundaries, also after "
+                "complete records of the same writer); all validated by TLC against JournalFileTrace; distinct = distinct executions")
     r = tlc.require_model("JournalFileMC", "JournalFileMC_c05q", must_cover=COVER, timeout=3000)
     ctx.model(r, "JournalFileMC_c05q")
     if not ctx.quick:
@@ -35,6 +36,11 @@ def run(ctx):
              enumerate([(2, 1, 2, 2), (3, 1, 2, 2), (3, 1, 2, 2), (3, 2, 3, 2)] * (1 if ctx.quick else 3))]
     traces += jc.pool_map(jc._random_chunk, tasks)
     cuts = list(range(0, 70)) + ["fsync", "rename", "unlink", "symlink", "open_rbp", "open_ab"]
+    # records larger than one 4 KiB block, torn anywhere (also after complete records of the same writer)
+    big = [(c, pad, pre) for pad in (4200, 9000) for pre in (0, 1)
+           for c in ([1, 60, 4000, 4095, 4096, 4097, 4100, pad - 1, pad, pad + 40] if ctx.quick else
+                     list(range(1, pad + 60, 97)) + [4095, 4096, 4097, 8191, 8192, 8193])]
+    cuts += [x for x in big if x[0] < x[1] + 60]
     traces += jc.pool_map(jc._cut_chunk, [(ctx.seed, cuts[i::8]) for i in range(8)])
     v = jc.judge(ctx, traces, "crash + takeover + survivors", allow_k4=True)
     from . import rdb_sched
